@@ -210,6 +210,9 @@ func leanTypeM(t types.Type) (string, error) {
 	if lt, ok := k01decType(t); ok { // wp k01dec (ext_k01dec.go): object types of the QR decoder
 		return lt, nil
 	}
+	if lt, ok := k11bType(t); ok { // wp k11b (ext_k11b.go): []bool, opaque object tokens
+		return lt, nil
+	}
 	switch u := t.Underlying().(type) {
 	case *types.Basic:
 		if u.Info()&types.IsString != 0 {
@@ -488,6 +491,9 @@ func (fc *fnCtx) mexpr(ex ast.Expr) (string, bool, error) {
 		return s, true, err
 	}
 	if s, handled, err := fc.k01decMexpr(ex); handled { // wp k01dec (ext_k01dec.go)
+		return s, true, err
+	}
+	if s, handled, err := fc.k11bMexpr(ex); handled { // wp k11b (ext_k11b.go)
 		return s, true, err
 	}
 	switch x := ex.(type) {
@@ -1794,6 +1800,9 @@ func (fc *fnCtx) massign(x *ast.AssignStmt, rest []ast.Stmt, lvl int) (string, e
 	if s, handled, err := fc.dmxAssign(x, rest, lvl); handled { // wp dmmirror (ext_dmmirror.go)
 		return s, err
 	}
+	if s, handled, err := fc.k11bAssign(x, rest, lvl); handled { // wp k11b (ext_k11b.go)
+		return s, err
+	}
 	cont := func(prefix string) (string, error) {
 		r, err := fc.mblock(rest, lvl)
 		if err != nil {
@@ -2001,6 +2010,7 @@ func (fc *fnCtx) massign(x *ast.AssignStmt, rest []ast.Stmt, lvl int) (string, e
 			if err != nil {
 				return "", err
 			}
+			val = fc.k11bElemVal(lx, val) // wp k11b (ext_k11b.go): a []bool element is stored as 0 / 1
 			if x.Tok != token.ASSIGN {
 				cur := fc.bind(fmt.Sprintf("%s %s %s", k19Idx(fc.m.ltype[key]), fc.name(key), i))
 				val, err = fc.opAssign(x.Tok, cur, val, fc.p.TypesInfo.TypeOf(lx), r)
@@ -3033,6 +3043,7 @@ func genFuncM(p *packages.Package, e entry) (string, error) {
 	if ferr := fc.dmxFlatten(fd); ferr != nil { // wp dmmirror (ext_dmmirror_flat.go): nested objects -> flat locals
 		return "", ferr
 	}
+	fc.k11bPrepare(fd) // wp k11b (ext_k11b.go): AST pre-pass, abstract parameters
 	params, gerr := fc.dmxGlobals(fd, params) // wp dmmirror: init-filled package-level tables are leading parameters
 	if gerr != nil {
 		return "", gerr
@@ -3235,6 +3246,7 @@ func genFuncM(p *packages.Package, e entry) (string, error) {
 	if nerr != nil {
 		return "", nerr
 	}
+	params = fc.k11bParams(params) // wp k11b (ext_k11b.go)
 	if fc.m.fuelUsed {
 		params = append([]string{"(fuel : Nat)"}, params...)
 	}
